@@ -33,6 +33,7 @@ type CCtx struct {
 	pkg      *types.Package        // package whose globals and constants names may refer to when fn is nil (callee contracts)
 	heapOverride map[string]string // aftercall(): heaps right after a call returned
 	freshLo, freshHi string        // callee contract at a call site: fresh(x) means freshLo <= x < freshHi
+	boundTerm map[string]string    // callee contract at a call site: bound(NAME) of a ghost result is an unknown Bool
 }
 
 type BindingError struct{ msg string }
@@ -706,6 +707,9 @@ func (c *CCtx) call(n Call) CVal {
 		id, ok := n.Args[0].(Ident)
 		if !ok {
 			bindFail("bound() takes a name")
+		}
+		if t, ok := c.boundTerm[id.Name]; ok {
+			return CVal{T: t, Sort: "Bool"}
 		}
 		_, has := c.vars[id.Name]
 		return CVal{T: fmt.Sprint(has), Sort: "Bool"}
